@@ -333,6 +333,7 @@ theorem removeSpaces_spec (f : File) :
 def sampleFile : File :=
   { tokens := [⟨[108], some 1, [], [⟨.whitespace, [32]⟩]⟩,
                ⟨[97], some 1, [], [⟨.whitespace, [32]⟩, ⟨.comment, [45, 45, 99]⟩, ⟨.whitespace, [10]⟩]⟩],
+    after := [],
     final := some ⟨[], some 2, [⟨.comment, [45, 45, 107]⟩], []⟩ }
 
 example : (removeComments LitPat.isMatch [⟨false, false, [107]⟩] sampleFile).comments = [[45, 45, 107]]
@@ -433,7 +434,7 @@ theorem attachComment_codeLines (loc : AppendLocation) (text : Bytes) (g : File)
     | none => simp [File.codeLines, File.all, hg, hf, appendComment_content, emptyToken]
     | some x =>
       simp only [File.codeLines, File.all, hg, hf, List.nil_append, Option.toList_some, Option.getD_some,
-        List.filter_cons, appendComment_content]
+        List.filter_append, List.map_append, List.filter_cons, List.filter_nil, appendComment_content]
       split <;> simp [appendComment_line]
   | cons t r =>
     cases loc
@@ -496,7 +497,7 @@ def append_end_lines_full : Prop :=
 /-- F25: it is false — `print` on line 1, text `x` at the end: the token is moved to line 2. -/
 theorem append_end_lines_full_false : ¬ append_end_lines_full := by
   intro h
-  have := h [120] ⟨[⟨[112], some 1, [], []⟩], none⟩
+  have := h [120] ⟨[⟨[112], some 1, [], []⟩], [], none⟩
   revert this
   decide
 
